@@ -7,10 +7,22 @@
 //! Oracle: set equality of lexical quads (N-Quads: all graphs; the other two: the default
 //! graph only), up to a bijection on blank-node labels.  No engine code produces the
 //! expected value: it is the snapshot of what was put in.
-//! Attribution: every refuted case is reduced (quads by ddmin, prefixes, graph names,
-//! quoted triples, consistent renaming of every term to a plain one, characters of the
-//! remaining literals / IRIs) while it stays inside the quantifier and keeps failing; the
-//! signature lists what could NOT be removed.
+//!
+//! Attribution of a refuted case (all of it by experiment, nothing by pattern-matching
+//! messages):
+//!  * isolation: every quad on its own, then object lists, then subject groups, then the
+//!    rest; inside one literal the character classes are tried apart (sub-sets of size
+//!    0..3 kept, the other non-alphanumeric characters turned into letters);
+//!  * reduction: quads by ddmin (bisection on the count for big datasets), prefix table,
+//!    graph names, one occurrence at a time, quoted triples, consistent renaming of every
+//!    term to a plain one, characters of the remaining literals / IRIs - every step must
+//!    stay inside the quantifier, keep failing in the same way (difference / same panic)
+//!    and must not move a hostile character between the inside and the ends of a literal;
+//!  * placement: the reduced literal padded with a letter on both sides, run again;
+//!  * fault side: the export of the reduced case read by a reference reader (W3C
+//!    N-Triples-star / N-Quads-star grammar + the Turtle subset the writer uses) and the
+//!    reference serialisation of the reduced case read by the engine.
+//! The signature is (format, fault side, what could NOT be removed).
 
 use kolibrie::sparql_database::SparqlDatabase;
 use kvcore::{guard, hash_str, json, panic_site, Ctx, Rng, Spec, Value};
@@ -18,7 +30,7 @@ use shared::dataset_index::{GraphId, Quad};
 use shared::quoted_triple_store::is_quoted_triple_id;
 use std::collections::{BTreeMap, BTreeSet, HashMap};
 
-const RULE: &str = "Phases: (tokens) every token of a 107-entry hostile alphabet x 4 placements (alone, leading, inner, trailing) x 5 term positions (object literal in the default graph / in a named graph, literal inside a quoted triple used as object / as subject / nested twice) x 3 formats, exhaustively; (iris) every character class legal in an IRI x 5 positions x 3 formats, exhaustively; (pairs) ordered pairs of tokens as one object literal x 3 formats (exhaustive in the thorough tier, sampled in quick); (random) random datasets of 1-10 quads with repeated subjects/predicates, IRIs of many schemes, blank nodes in subject/object/graph position, quoted triples up to depth 3, named graphs, literals concatenated from 0-6 hostile tokens, x 3 formats, plus every quad on its own when the dataset fails; (prefixes) the same with a prefix table on the database (Turtle emits it); (big) 1001-2600 quad datasets (N-Triples reader chunking) with benign literals. Every literal is filtered so that neither it nor its trimmed form looks like an absolute IRI (scheme ':'), a blank node ('_:') or a quoted triple ('<<'). Non-trivial = the dataset holds a literal with a non-alphanumeric character (or the empty literal), a blank node or a quoted triple and the export was re-imported; distinct by hash of (dataset, prefix table).";
+const RULE: &str = "Phases: (tokens) every token of a 107-entry hostile alphabet (quotes, backslash, LF/CR/CRLF/tab, other control characters, Unicode white space, < > << >> <b>, # @ @en ^^ ^^<datatype>, . ; , {| |}, escape look-alikes, non-BMP / combining / RTL / CJK, numbers, pname look-alikes, brackets ...) x 4 placements (alone, leading, inner, trailing) x 5 term positions (object literal in the default graph / in a named graph, literal inside a quoted triple used as object / as subject / nested twice) x 3 formats, exhaustively; (iris) every character class legal in an IRI x 6 IRI shapes (http, https, urn, mailto, custom scheme) x 5 positions x 3 formats, exhaustively; (big) 1001-2600 quad datasets (N-Triples reader chunking) with benign literals; (pairs) ordered pairs of tokens as one object literal x 3 formats (exhaustive in the thorough tier, sampled in quick); (prefixes) random datasets with a prefix table on the database (Turtle emits it) whose names include the empty name, names that are legal IRI schemes and names that are not, and terms spelled like prefixed names; (random) random datasets of 1-10 quads with repeated subjects/predicates, IRIs of many schemes, blank nodes in subject/object/graph position, quoted triples up to depth 3, named graphs incl. the same triple in two graphs, literals concatenated from 0-6 hostile tokens, x 3 formats - a failing dataset is taken apart (every quad alone, object lists, subject groups, rest). Every literal is filtered so that neither it nor its trimmed form looks like an absolute IRI (scheme ':'), a blank node ('_:') or a quoted triple ('<<'). Non-trivial = the dataset holds a literal with a non-alphanumeric character (or the empty literal), a blank node or a quoted triple and the export was re-imported; distinct by hash of (dataset, prefix table).";
 
 // ---------------------------------------------------------------------------------------
 // model terms (typed, so the quantifier can be checked) and their untyped image
@@ -477,6 +489,11 @@ fn ref_write(c: &Case, f: F) -> String {
 struct RefReader {
     cs: Vec<char>,
     i: usize,
+    /// second reading only: inside << >> accept a bare token without white space, quote,
+    /// angle bracket or backslash as the term it spells (the repository writes the
+    /// components of quoted triples that way; not N-Triples-star, but unambiguous)
+    bare_inside_quoted: bool,
+    depth: usize,
 }
 impl RefReader {
     fn peek(&self) -> Option<char> {
@@ -506,9 +523,11 @@ impl RefReader {
         match self.peek() {
             Some('<') if self.cs.get(self.i + 1) == Some(&'<') => {
                 self.i += 2;
+                self.depth += 1;
                 let s = self.term()?;
                 let p = self.term()?;
                 let o = self.term()?;
+                self.depth -= 1;
                 self.skip();
                 if self.peek() == Some('>') && self.cs.get(self.i + 1) == Some(&'>') {
                     self.i += 2;
@@ -600,6 +619,20 @@ impl RefReader {
                     _ => Ok(U::A(x)),
                 }
             }
+            Some(c) if self.bare_inside_quoted && self.depth > 0 && c != '>' => {
+                let mut x = String::new();
+                while let Some(c) = self.peek() {
+                    if c == ' ' || c == '\t' || c == '\n' || c == '\r' {
+                        break;
+                    }
+                    if c == '"' || c == '<' || c == '>' || c == '\\' {
+                        return self.err("bare term inside << >> contains a delimiter character");
+                    }
+                    x.push(c);
+                    self.i += 1;
+                }
+                Ok(U::A(x))
+            }
             Some(_) => self.err("not the start of a term"),
             None => self.err("unexpected end of text"),
         }
@@ -615,8 +648,8 @@ impl RefReader {
     }
 }
 
-fn ref_read(text: &str, f: F) -> Result<BTreeSet<UQuad>, String> {
-    let mut r = RefReader { cs: text.chars().collect(), i: 0 };
+fn ref_read(text: &str, f: F, bare_inside_quoted: bool) -> Result<BTreeSet<UQuad>, String> {
+    let mut r = RefReader { cs: text.chars().collect(), i: 0, bare_inside_quoted, depth: 0 };
     let mut out = BTreeSet::new();
     loop {
         r.skip();
@@ -697,10 +730,14 @@ fn fault_side(c: &Case, f: F) -> (String, Value, bool) {
     let mut export_valid = true;
     let (export_ok, export_note) = match &text {
         Err(e) => (false, format!("export panicked: {}", e)),
-        Ok(t) => match ref_read(t, f) {
+        Ok(t) => match ref_read(t, f, false) {
             Err(e) => {
                 export_valid = false;
-                (false, format!("export is not valid {}: {}", f.name(), e))
+                // not the standard grammar; is it at least the unambiguous bare spelling?
+                match ref_read(t, f, true) {
+                    Ok(set) if set.iter().map(lex_quad).collect::<BTreeSet<LexQuad>>() == expected => (true, format!("export is not valid {} ({}), but with bare terms inside << >> read as written it denotes the dataset", f.name(), e)),
+                    _ => (false, format!("export is not valid {}: {}", f.name(), e)),
+                }
             }
             Ok(set) => {
                 let l: BTreeSet<LexQuad> = set.iter().map(lex_quad).collect();
@@ -1202,8 +1239,42 @@ impl<'a> Reducer<'a> {
 
     fn ddmin_quads(&mut self, cur: &mut Case) -> bool {
         let mut changed = false;
+        let mut tries_left: usize = usize::MAX;
+        if cur.quads.len() > 200 {
+            // big dataset: every step costs a round trip of the whole thing.  Drop what the
+            // format does not export, look for a threshold on the number of quads by
+            // bisection (failures of big datasets are about counts: chunking), then spend a
+            // bounded number of ordinary ddmin steps.
+            if self.f != F::NQuads {
+                let mut cand = cur.clone();
+                cand.quads.retain(|q| q.g.is_none());
+                if cand.quads.len() < cur.quads.len() && self.fails(&cand) {
+                    *cur = cand;
+                    changed = true;
+                }
+            }
+            let all = cur.quads.clone();
+            let (mut lo, mut hi) = (1usize, all.len());
+            while lo < hi {
+                let mid = (lo + hi) / 2;
+                let cand = Case { quads: all[..mid].to_vec(), prefixes: cur.prefixes.clone() };
+                if self.fails(&cand) {
+                    hi = mid;
+                } else {
+                    lo = mid + 1;
+                }
+            }
+            if lo < all.len() {
+                let cand = Case { quads: all[..lo].to_vec(), prefixes: cur.prefixes.clone() };
+                if self.fails(&cand) {
+                    *cur = cand;
+                    changed = true;
+                }
+            }
+            tries_left = 120;
+        }
         let mut n = 2usize;
-        while cur.quads.len() >= 2 {
+        while cur.quads.len() >= 2 && tries_left > 0 {
             let len = cur.quads.len();
             let chunk = (len + n - 1) / n;
             let mut reduced = false;
@@ -1212,6 +1283,10 @@ impl<'a> Reducer<'a> {
                 starts.reverse();
             }
             for st in starts {
+                if tries_left == 0 {
+                    break;
+                }
+                tries_left -= 1;
                 let mut cand = cur.clone();
                 cand.quads.drain(st..(st + chunk).min(len));
                 if self.fails(&cand) {
@@ -1641,7 +1716,7 @@ fn report_one(ctx: &mut Ctx, c: &Case, f: F, first: &Res, origin: &str, backward
         let mut merged = BTreeSet::new();
         for x in feats {
             if x.starts_with("literal[") && x.ends_with("@inside_quoted_triple") {
-                merged.insert("hostile_literal@inside_quoted_triple_exported_without_delimiters".to_string());
+                merged.insert("hostile_literal@inside_quoted_triple[export_is_not_valid_syntax]".to_string());
             } else if x != "quoted_triple@inside_quoted_triple" && x != "named_graph" && x != "quoted_triple" {
                 merged.insert(x);
             }
@@ -1980,7 +2055,7 @@ fn run(ctx: &mut Ctx) {
     // ---- pairs --------------------------------------------------------------------------
     let all_pairs = nt * nt * 3;
     let thorough = ctx.thorough();
-    ctx.phase("pairs", if thorough { all_pairs } else { 9_000 });
+    ctx.phase("pairs", if thorough { all_pairs } else { 12_000 });
     while let Some(k) = ctx.next_case() {
         let (f, i, j) = if thorough {
             (FORMATS[(k % 3) as usize], ((k / 3) % nt) as usize, (k / 3 / nt) as usize)
@@ -2005,9 +2080,14 @@ fn run(ctx: &mut Ctx) {
     }
 
     // ---- random datasets ----------------------------------------------------------------
-    for (phase, total, with_prefixes) in [("prefixes", ctx.by_tier(1_500u64, 30_000), true), ("random", ctx.by_tier(6_000u64, 200_000), false)] {
+    for (phase, total, with_prefixes) in [("prefixes", ctx.by_tier(2_000u64, 30_000), true), ("random", ctx.by_tier(9_000u64, 200_000), false)] {
         ctx.phase(phase, total);
         while let Some(k) = ctx.next_case() {
+            if with_prefixes && !ctx.within(0.4) {
+                // leave most of the workload budget to the plain random datasets
+                ctx.count("prefixes_phase_cut_short_to_leave_budget", 1);
+                break;
+            }
             let mut r = ctx.rng(k);
             let n = [1, 1, 2, 2, 3, 3, 4, 5, 6, 8, 10][r.below(11)];
             let c = gen_case(&mut r, n, with_prefixes, false);
